@@ -15,4 +15,29 @@ CLAIMS = {
     },
 }
 
+CLAIMS["C07"] = {
+    "technique": "static path-condition analysis of every raise (abstract-interpreter branch stack), zero-exclusion "
+                 "of implicit raisers, shape + polynomial check of the guarded arm of add_constraint, emission "
+                 "equality of hint arms, kind/idiom check of if_then_else's lazy-branch guards",
+    "text": "Decides the structural half of guard inertness: every value-dependent raise is governed by a test that is "
+            "false under ignore_errors(); implicit raisers exclude the raising value; guarded constraints are emitted "
+            "through the dummy path with the dummy hinted v*w-y; dummy hint arms emit like honest arms; lazy branches "
+            "run under the condition's wire and its logical complement. Holds for every input because it is a fact "
+            "about each raise / call site, not about sampled runs.",
+    "note": "Does not decide 'same values and same errors under a true guard' (value semantics) nor uniqueness of the "
+            "selected value (C02). Four genuine unsuppressed raises are recorded as known findings.",
+}
+CLAIMS["C08"] = {
+    "technique": "typestate/pairing analysis on statement CFGs with exceptional edges (path queries, dominators) + "
+                 "package-wide store census of guard state",
+    "text": "Decides on the CFG that add_guard saves exactly the state it writes before writing it, restore_guard writes "
+            "each component back from the matching token position, every add_guard call is followed by "
+            "restore_guard(token) on all normal and exceptional paths, nothing can raise after the first write in "
+            "add_guard, branch contexts release before anything that can raise and leave before re-entering, the new "
+            "guard is `guard & cond` / suppression is only or-ed / LinComb.ONE becomes the new guard, and nobody else "
+            "writes guard state. Exceptional exits at every statement are covered by construction of the CFG.",
+    "note": "Trusted: the CFG construction (sa/cfg.py). The block API's field-stored token (no release on exceptions "
+            "in user code) is a recorded known finding. Client code outside /repo is out of scope.",
+}
+
 NOT_APPLICABLE = {}
